@@ -988,6 +988,14 @@ def gen_writer_case(rng, kind=None, rewrite=False):
             ops.append('d')
         else:
             ops.append(rng.choice(['f', 'c']))
+    if not rewrite and rng.random() < 0.3:
+        # non-forced flushes between the chunks: nothing incomplete may be frozen by them
+        ops2 = []
+        for op in ops:
+            ops2.append(op)
+            if op[0] == 'w' and rng.random() < 0.6:
+                ops2.append('f')
+        ops = ops2[:14]
     if rewrite and not any(op.startswith('w') and ops.count(op) > 1 for op in ops) and written:
         ops.insert(rng.randint(1, len(ops)), 'w%d,%d,%d' % rng.choice(written))
         ops = ops[:12]
@@ -1711,17 +1719,22 @@ def run(tier):
         'JPEG 2000 / JPEG decoding is PIL; multi-block JPEG pixel values are not compared here (reading is C01); IMODE=S and masked compressed segments, the GFF reader (its own cache-file scheme) and NITF 2.0 are not exercised',
     ]
     unknown_keys = [k for k in by_key if not (k and chk.known(k))]
-    nviol = 0
+    # unclassified failures are reported once per machine (object family), the shortest history of each
+    groups = {}
     for k in unknown_keys:
+        for f in by_key[k]:
+            groups.setdefault((k, f['case']['machine'] if not k else ''), []).append(f)
+    nviol = 0
+    for (k, mach) in sorted(groups, key=lambda g: (g[0], 'BCEWRDSA'.find(g[1]))):
         if nviol >= 5:
             break
-        f = min(by_key[k], key=lambda f: (len(f['hist_keys']), len(f['case']['ops'])))
+        f = min(groups[(k, mach)], key=lambda f: (len(f['hist_keys']), len(f['case']['ops'])))
         chk.violation(f['msg'] + (f' [{k}]' if k else ''),
-                      {'key': k, 'case': f['case'], 'count_in_this_run': len(by_key[k]), 'broken_obligations': broken,
+                      {'key': k, 'case': f['case'], 'count_in_this_run': len(groups[(k, mach)]), 'broken_obligations': broken,
                        'replay_cmd': './check C19 --replay <this file>'}, True)
         nviol += 1
-    if len(unknown_keys) > 5:
-        chk.notes.append(f'{len(unknown_keys)} distinct failure classes found, first 5 reported')
+    if len(groups) > 5:
+        chk.notes.append(f'{len(groups)} distinct failure classes found, first 5 reported')
     if not unknown_keys and (broken or disagreements):
         chk.violation('proof obligation or correspondence no longer checks: ' + '; '.join(broken[:3] + [d['msg'][:200] for d in disagreements[:2]]),
                       {'broken_obligations': broken, 'disagreements': disagreements[:10]}, False)
